@@ -188,7 +188,7 @@ func refStmtValid(st refStmt, b string) bool {
 
 func C14(r *ck.Run) {
 	requireMapOrderInstrumented()
-	r.Rule("(a) every glob pattern over {a,b,/,*,?} up to a length bound × every subject over {a,b,/} and (one shorter) over {a,/,*,?}, plus patterns and subjects with multi-byte characters; (b) every policy of 1-2 statements from a menu (effect × principal shape × action shape incl. '<full action name>*' × resource shape, string-or-array JSON forms, plain and with JSON escape sequences) × caller × action × resource, evaluated under EVERY iteration order of the policy's maps; (c) a menu of valid and invalid documents (among them statements with Condition / Not* elements, which must be refused, and one statement per action the endpoint table names, which must be accepted) validated directly under every map order and put through HTTP; distinct = distinct (pattern,subject) / (policy,query) / document")
+	r.Rule("(a) every glob pattern over {a,b,/,*,?} up to a length bound × every subject over {a,b,/} and (one shorter) over {a,/,*,?}, plus patterns and subjects with multi-byte characters; (b) every policy of 1-2 statements from a menu (effect × principal shape × action shape incl. '<full action name>*' × resource shape, string-or-array JSON forms, plain and with JSON escape sequences) × caller × action × resource, evaluated under EVERY iteration order of the policy's maps; (c) a menu of valid and invalid documents (among them statements with Condition / Not* elements, which must be refused, empty and null elements inside Action / Principal / Resource arrays, which must be refused without a panic, and one statement per action the endpoint table names, which must be accepted) validated directly under every map order and put through HTTP; distinct = distinct (pattern,subject) / (policy,query) / document")
 	r.Assume("map iteration order of package auth is owned by the explorer through the overlay (range <map> → vmap.Keys)")
 	iam := c14IAM{map[string]bool{"u1": true, "u2": true, "u3": true}}
 	b := "bkt"
